@@ -32,7 +32,8 @@ def run_families(ctx, scenarios, tag, bound=None, require_done=True):
     cov = ctx.coverage
     cov["traces_validated_against_impl"] = cov.get("traces_validated_against_impl", 0) + summary["accepted"]
     cov["states"] = cov.get("states", 0) + max(summary["tlc_states"], 0)
-    cov["transitions"] = cov.get("transitions", 0) + summary["events"]
+    cov["transitions"] = cov.get("transitions", 0) + max(summary["tlc_generated"], summary["events"])
+    cov["trace_events_validated"] = cov.get("trace_events_validated", 0) + summary["events"]
     cov["evaluations"] = cov.get("evaluations", 0) + summary["scenarios"]
     cov["distinct_nontrivial"] = cov.get("distinct_nontrivial", 0) + len(fps)
     cov.setdefault("families", {})[tag] = {k: summary[k] for k in ("scenarios", "accepted", "rejected", "events", "wall_s")}
@@ -54,7 +55,7 @@ def replay(ctx, d, meta):
         sc = json.load(f)
     build_harness()
     summary, outcomes, outdir = runner.run_and_validate(ctx, [sc], "replay")
-    ctx.coverage.update({"states": max(summary["tlc_states"], 1), "transitions": max(summary["events"], 1),
+    ctx.coverage.update({"states": max(summary["tlc_states"], 1), "transitions": max(summary["tlc_generated"], 1),
                          "traces_validated_against_impl": summary["accepted"], "samples": [sc["ops"][:10]]})
     if not ctx.violations:
         log("replay: scenario %s is now accepted" % sc["id"])
